@@ -382,7 +382,124 @@ def names_worker(args):
     return hutil.export(chk)
 
 
+AGG_REPLAY = r"""
+# Replay for C11: the name of a struct/union in-line vs in the out-of-line ABI module built from the same cdef
+import sys, os, json, tempfile, importlib, atexit, shutil
+import cffi
+case = json.loads(%r)
+kind, tag, alias = case['kind'], case['tag'], case['alias']
+body = '{ int a; }'
+if tag and alias:
+    cdef, asks = '%%s %%s %%s; typedef %%s %%s %%s;' %% (kind, tag, body, kind, tag, alias), ['%%s %%s' %% (kind, tag), alias]
+elif tag:
+    cdef, asks = '%%s %%s %%s;' %% (kind, tag, body), ['%%s %%s' %% (kind, tag)]
+else:
+    cdef, asks = 'typedef %%s %%s %%s;' %% (kind, body, alias), [alias]
+d = tempfile.mkdtemp(); atexit.register(shutil.rmtree, d, True)
+sys.path.insert(0, d)
+ffi = cffi.FFI(); ffi.cdef(cdef)
+ffi.set_source('_c11_aggname', None); ffi.emit_python_code(os.path.join(d, '_c11_aggname.py'))
+m = importlib.import_module('_c11_aggname')
+bad = []
+for t in asks:
+    a, b = ffi.typeof(t).cname, m.ffi.typeof(t).cname
+    if a != b:
+        bad.append('cdef %%r: typeof(%%r) is named %%r in-line and %%r out-of-line' %% (cdef, t, a, b))
+for b in bad: print('VIOLATED:', b)
+sys.exit(1 if bad else 0)
+"""
+
+AGG_TAGS = [
+    hutil.Tag('named_aggregate_with_typedef_alias',
+              lambda c: bool(c.get('tag')) and bool(c.get('alias')),
+              lambda inputs: True),
+]
+
+
+def aggname_worker(args):
+    """the name of a struct/union: in-line (cparser._get_struct_union_enum_type -> model.get_official_name) against the
+    out-of-line module (the stored name the Recompiler emits, realized by _realize_name -- its rule is the lemma decided by the
+    'names' cases)"""
+    prop, tier, kind_, agg, lt, la = args
+    chk = hutil.sub_check(prop, tier)
+    sys.path.insert(0, os.path.join(common.REPO, 'src'))
+    from vf import symstr
+    from cffi import cparser, model
+    from pycparser import c_ast
+    label = 'aggregate-name:%s:tag-length-%d:typedef-length-%d' % (agg, lt, la)
+    ex = pysym.PyExplorer()
+    IDENT = [c for c in range(128) if chr(c).isalnum() or chr(c) == '_']
+
+    def ident(name, n):
+        t = symstr.SymStr.fresh(ex, name, n)
+        for c in t.chars:
+            ex.add_definition(z3.Or(*[c == v for v in IDENT]))
+        ex.add_definition(z3.Not(z3.And(t.chars[0] >= 48, t.chars[0] <= 57)))
+        return t
+
+    def h(ex):
+        tag = ident('tag', lt) if lt else None
+        alias = ident('alias', la) if la else None
+        parser = cparser.Parser()
+
+        class Decls(dict):
+            def get(self, k, default=None):
+                return default
+
+            def __contains__(self, k):
+                return False
+
+            def __setitem__(self, k, v):
+                pass
+        parser._declarations = Decls()
+        node = c_ast.Struct(tag, None) if agg == 'struct' else c_ast.Union(tag, None)
+        # the same functions re-compiled from the working tree's source with their str literals lifted, so that '%s %s' % (kind, name) and '$%s' % name accept symbolic names
+        saved = model.StructOrUnionOrEnum.build_c_name_with_marker
+        model.StructOrUnionOrEnum.build_c_name_with_marker = symstr.lift_source(saved)
+        try:
+            tp = symstr.lift_source(cparser.Parser._get_struct_union_enum_type)(parser, agg, node, name=alias)
+            inline = tp.get_official_name()
+        finally:
+            model.StructOrUnionOrEnum.build_c_name_with_marker = saved
+        stored = tp.name
+        # _realize_name: '$x...' with x not '$' and not a digit names a typedef-only aggregate
+        if isinstance(stored, str):
+            typedef_only = stored[:1] == '$' and len(stored) > 1 and stored[1] != '$' and not stored[1].isdigit()
+        else:
+            c0, c1 = stored.chars[0], (stored.chars[1] if len(stored.chars) > 1 else 0)
+            typedef_only = ex.decide(z3.And(symstr.SymStr._ceq(c0, 36), z3.Not(symstr.SymStr._ceq(c1, 36)),
+                                            z3.Not(z3.And(llsym.bv(c1, symstr.CW) >= 48, llsym.bv(c1, symstr.CW) <= 57)))) if len(stored.chars) > 1 else False
+        outofline = stored[1:] if typedef_only else (agg + ' ') + stored
+        hutil.witness(chk, ex, label)
+        inputs = {}
+        for nm, t in (('tag', tag), ('alias', alias)):
+            if t is not None:
+                for i, c in enumerate(t.chars):
+                    inputs['%s[%d]' % (nm, i)] = c
+
+        def rp(case):
+            txt = lambda nm, n: ''.join(chr(case['%s[%d]' % (nm, i)]) for i in range(n))
+            c = {'kind': agg, 'tag': txt('tag', lt), 'alias': txt('alias', la)}
+            path = chk.write_replay('aggname', AGG_REPLAY % json.dumps(c))
+            rc, out = common.run_replay(path, timeout=120)
+            return common.replay_verdict(rc, out), path
+        a = inline if not isinstance(inline, str) else symstr.SymStr(ex, [ord(ch) for ch in inline])
+        eq = a._eq_term(outofline) if isinstance(a, symstr.SymStr) else (a == outofline)
+        hutil.discharge(chk, ex, label + ':same-name-in-line-and-out-of-line', eq, inputs, tags=AGG_TAGS, replay=rp,
+                        extra_case={'tag': 'x' * lt, 'alias': 'x' * la})
+
+    res = ex.explore(h, max_paths=2000)
+    hutil.finish_explore(chk, ex, res, label)
+    if not chk.witnesses:
+        chk.inconc(label + ': no path reached an obligation')
+    chk.functions = [{'name': n, 'file': 'src/cffi/cparser.py'} for n in ('Parser._get_struct_union_enum_type',)] + \
+                    [{'name': 'StructOrUnionOrEnum.force_the_name / get_official_name', 'file': 'src/cffi/model.py'}]
+    return hutil.export(chk)
+
+
 def dispatch(args):
+    if args[2] == 'aggname':
+        return aggname_worker(args)
     if args[2] == 'names':
         return names_worker(args)
     if args[2] == 'tables':
@@ -408,6 +525,10 @@ def run(chk):
             cases.append(P + ('tables', fl_, bf))
     for n in range(1, 6):
         cases.append(P + ('names', n))
+    for agg in ('struct', 'union'):
+        for lt, la in ((1, 0), (2, 0), (0, 1), (0, 2), (0, 0), (1, 1), (2, 2)):
+            cases.append(P + ('aggname', agg, lt, la))
+    chk.bounds['aggregate names'] = 'struct/union with a tag of 0..2 identifier characters and a typedef alias of 0..2 characters'
     chk.bounds['names'] = 'every NUL-free stored name of 1..5 characters through _realize_name / _unrealize_name'
     chk.bounds['tables'] = 'one struct/union (5 flag combinations) with one plain or bit-field member, one enum, one typename: every 32-bit type index, field opcode word and bit width'
     hutil.run_cases(chk, cases, dispatch)
